@@ -1,6 +1,6 @@
 """C04 output geometry comes from the inputs (partly decided: coordinate provenance from input vertices / clamped
 intersection points to result rings, endpoint guards).  Closedness, area and orientation of rings are not decided."""
-from rules import fillrules, pirules, cerules, segrules, oprules, booltables as bt
+from rules import fillrules, pirules, cerules, segrules, oprules, walkrules, booltables as bt
 
 LEVEL = 'other'
 EXPLANATION = __doc__
@@ -13,6 +13,10 @@ def run(ctx, rep):
     pirules.check_code(ctx, rep, rule='G-sources')
     # G-sinks
     cerules.check_sinks(ctx, rep)
+    walkrules.check_result_events(ctx, rep)
+    walkrules.check_other_pos(ctx, rep)
+    walkrules.check_walk(ctx, rep)
+    walkrules.check_next_pos(ctx, rep)
     oprules.check_assemble(ctx, rep, rule='G-sinks')
     oprules.check_trivial(ctx, rep, rule='G-sinks')
     # rings close only if the edges are selected consistently: the selection / propagation tables are a necessary condition
